@@ -28,7 +28,7 @@ ASSUMPTIONS = ['the object interface (Fitter.fit + keep) is the reference for re
                'filter_output may raise on a record with zero fits, but then must raise the same class on every channel']
 PROBES = ['zero_fit_record_reached_consumer', 'ineligible_line_skipped', 'short_line_ended_input', 'lines_after_terminator_ignored',
           'preexisting_output_replaced', 'restart_after_crash', 'restart_after_enospc', 'prompt_n_abort', 'channel_list', 'channel_obj',
-          'channel_path', 'nan_result_record', 'crash_inside_metadata', 'no_final_newline', 'prelude_epoch', 'channel_fresh', 'intruder_fit', 'manual_source_edited_in_place', 'manual_same_source_object_written_again', 'same_name_on_two_eligible_lines']
+          'channel_path', 'nan_result_record', 'crash_inside_metadata', 'no_final_newline', 'prelude_epoch', 'channel_fresh', 'intruder_fit', 'manual_source_edited_in_place', 'manual_same_source_object_written_again', 'same_name_on_two_eligible_lines', 'plot_only_some_sources']
 
 
 def budgets(tier):
@@ -104,7 +104,10 @@ def generate(rng, tier, idx):
                       'criterion': rng.choice(['chi', 'cpd']), 'threshold': float('%.3g' % (10 ** rng.uniform(-1, 5))),
                       # non-default options of the consumers (legal values; must not change what the channels agree on)
                       'show_convolved': rng.random() < 0.5, 'plot_mode': rng.choice(['A', 'A', 'I']), 'plot_max': rng.choice([None, None, 1, 3]),
-                      'memmap': rng.random() < 0.7, 'additional': rng.random() < 0.3, 'header': rng.random() < 0.8})
+                      'memmap': rng.random() < 0.7, 'additional': rng.random() < 0.3, 'header': rng.random() < 0.8,
+                      # plot(): only some of the sources, fixed axis ranges, labels off
+                      'plot_sources_mask': rng.choice([None, None, rng.randrange(1, 1 << 12)]), 'manual_axes': rng.random() < 0.3,
+                      'plot_name': rng.random() < 0.8, 'plot_info': rng.random() < 0.8})
     if rng.random() < 0.3:
         from ..author import prelude_spec
         sc['prelude'] = {'world': prelude_spec(w, rng), 'seed': rng.randrange(1 << 30), 'leftover_gz': rng.random() < 0.4}
@@ -428,6 +431,10 @@ def _execute(sc, sim, out):
             st['show_convolved'] = bool(st.get('show_convolved')) and sc['output_convolved']   # needs stored predictions
             if st.get('additional'):
                 st['additional_dict'] = {'ADDED': {nm: 1.5 + 0.25 * k for k, nm in enumerate(W.names)}}
+            if st.get('plot_sources_mask') is not None and st['op'] == 'plot':
+                uniq = sorted(set(s_['name'] for s_ in sc['sources']))
+                st['plot_sources'] = [nm for k, nm in enumerate(uniq) if (st['plot_sources_mask'] >> k) & 1]
+                out.probe('plot_only_some_sources')
             before = [canon_record(o, meta=True) for o in objs]
             ref = pipe.run_consumer(sim, st['op'], outp, st['sel'], 'ref', st)
             res = pipe.run_consumer(sim, st['op'], arg, st['sel'], 'chan', st)
